@@ -1,10 +1,8 @@
-import FitModel.ProfileSpec
-import FitModel.Generated.Xlsx
-import FitModel.Generated.XlsxTypes
-import FitModel.Generated.ProfileTables
-import FitModel.Generated.ProfileTypes
-import FitModel.Generated.ProfileStrs
-import FitModel.Generated.GenDigest
+import FitProps.C17Defs
+import FitProps.C17MesgLemmas
+import FitProps.C17TypesLemmas
+import FitProps.C17StrLemmas
+import FitProps.C17UntypedLemmas
 /-!
 # C17 — Generated profile code is exactly what Profile.xlsx prescribes
 
@@ -37,21 +35,6 @@ Normalisations the comparison applies — all of them explicit below, nothing el
 namespace Fit.C17
 open Fit.ProfileSpec Fit.Gen
 
-/-- (spreadsheet spelling, generated spelling): `cadence_zone_high_bondary → …_boundary` (field 8 of message
-`zones_target`… see the KF entry), `connect_iq_app_managment → …_management` (constant of
-`connectivity_capabilities`), `degrees_farenheit → degrees_fahrenheit` (constant of `exd_data_units`) -/
-def f14 : List (Nat × Nat) := [
-  (0x1636164656e63655f7a6f6e655f686967685f626f6e64617279, 0x1636164656e63655f7a6f6e655f686967685f626f756e64617279),
-  (0x1636f6e6e6563745f69715f6170705f6d616e61676d656e74, 0x1636f6e6e6563745f69715f6170705f6d616e6167656d656e74),
-  (0x1646567726565735f666172656e68656974, 0x1646567726565735f66616872656e68656974)]
-
-/-- the packed numbers above are these texts -/
-example : f14.map (fun p => (unpack p.1, unpack p.2)) =
-    [("cadence_zone_high_bondary".toUTF8.toList.map UInt8.toNat, "cadence_zone_high_boundary".toUTF8.toList.map UInt8.toNat),
-     ("connect_iq_app_managment".toUTF8.toList.map UInt8.toNat, "connect_iq_app_management".toUTF8.toList.map UInt8.toNat),
-     ("degrees_farenheit".toUTF8.toList.map UInt8.toNat, "degrees_fahrenheit".toUTF8.toList.map UInt8.toNat)] := by
-  decide +kernel
-
 /-! ## byte for byte -/
 
 /-- **Byte for byte.** The generator ran; every file it emits has the same sha256 as the checked-in file of the
@@ -65,76 +48,95 @@ theorem C17_bytes :
 
 /-! ## entry by entry -/
 
-/-- the full statement: the factory's tables are the spreadsheet's rows -/
-def C17_factory_eq_xlsx_full : Prop := Prof.mesgs = Xlsx.mesgs
-
 /-- **Entry by entry (messages).** For every message of the spreadsheet and of the factory — same message
 numbers, same names — every field: number, name, profile type, base type, array flag, accumulate flag, scale,
 offset, units, every component (target field, scale, offset, bits, accumulate) and every sub-field (name, type,
 scale, offset, units, components, reference field/value pairs) agree, after the three spell-corrections `f14`. -/
-theorem C17_factory_eq_xlsx_partial : Prof.mesgs = Xlsx.mesgs.map (Mesg.fix f14) := by
-  decide +kernel
+theorem C17_factory_eq_xlsx_partial : Prof.mesgs = Xlsx.mesgs.map (Mesg.fix f14) :=
+  Lemmas.factory_eq_xlsx_partial
 
 /-- rows that carry none of the three spellings agree as they stand (the class of the finding is exactly the
 rows that mention one of the three identifiers) -/
 theorem C17_factory_eq_xlsx_outside_class :
     Prof.mesgs.length = Xlsx.mesgs.length ∧
     ∀ p ∈ Prof.mesgs.zip Xlsx.mesgs, p.1.num = p.2.num ∧ p.1.fields.length = p.2.fields.length ∧
-      ∀ q ∈ p.1.fields.zip p.2.fields, q.2.mentions f14 = false → q.1 = q.2 := by
-  decide +kernel
+      ∀ q ∈ p.1.fields.zip p.2.fields, q.2.mentions f14 = false → q.1 = q.2 :=
+  Lemmas.factory_eq_xlsx_outside_class
 
 /-- KF-C17-1 (F14): the full statement fails on the pinned tree — the factory spells `cadence_zone_high_boundary`
 where the spreadsheet has `cadence_zone_high_bondary`. -/
-theorem C17_KF1_witness : ¬ C17_factory_eq_xlsx_full := by
-  unfold C17_factory_eq_xlsx_full
-  decide +kernel
-
-def C17_types_eq_xlsx_full : Prop := Prof.types = Xlsx.types.map TypeRow.dedupe
+theorem C17_KF1_witness : ¬ C17_factory_eq_xlsx_full :=
+  Lemmas.KF1_witness
 
 /-- **Entry by entry (types).** Every profile type: name, base type, and every constant (value and string
 form, in order) of the compiled `ListXxx()` is the spreadsheet's, after `f14` and the deprecated-duplicate rule. -/
-theorem C17_types_eq_xlsx_partial : Prof.types = Xlsx.types.map (fun t => (t.dedupe).fix f14) := by
-  decide +kernel
+theorem C17_types_eq_xlsx_partial : Prof.types = Xlsx.types.map (fun t => (t.dedupe).fix f14) :=
+  Lemmas.types_eq_xlsx_partial
 
-theorem C17_KF1_witness_types : ¬ C17_types_eq_xlsx_full := by
-  unfold C17_types_eq_xlsx_full
-  decide +kernel
+theorem C17_KF1_witness_types : ¬ C17_types_eq_xlsx_full :=
+  Lemmas.KF1_witness_types
 
 /-! ## internal consistency of the generated packages -/
-
-def btSize (t : Nat) : Nat := Prof.btSizes.getD t 0
 
 /-- **References resolve.** In every message of the factory: field numbers are distinct and below 255, every
 component of every field and sub-field names a field *of the same message*, and every sub-field map refers to
 a field of the same message. -/
-theorem C17_refs_resolve : ∀ m ∈ Prof.mesgs, m.numsOk = true ∧ m.refsResolve = true := by
-  decide +kernel
+theorem C17_refs_resolve : ∀ m ∈ Prof.mesgs, m.numsOk = true ∧ m.refsResolve = true :=
+  Lemmas.refs_resolve
 
 /-- **Bit widths fit.** Every component takes 1..32 bits and the components of a field (and of each of its
 sub-fields) together fit the containing field: `8 × size(base type)` bits, times the declared length for a
 fixed array (from the spreadsheet's Array cell), the 255-byte protocol maximum for an `[N]` array. -/
-theorem C17_bitwidth_fit : ∀ m ∈ Prof.mesgs, m.bitsFit btSize Xlsx.fixedLens = true := by
-  decide +kernel
+theorem C17_bitwidth_fit : ∀ m ∈ Prof.mesgs, m.bitsFit btSize Xlsx.fixedLens = true :=
+  Lemmas.bitwidth_fit
 
 /-- **Constants round-trip through their string forms.** For every type and every element `c` of the compiled
 `ListXxx()`: `XxxFromString(c.String()) = c`; no value and no string is listed twice; `XxxInvalid` is not listed
 and `XxxFromString(XxxInvalid.String()) = XxxInvalid`. (Behaviour of the compiled functions, enumerated by the
 harness through the regenerated registry.) -/
-theorem C17_string_roundtrip : ∀ t ∈ Prof.strTables, t.ok = true := by
-  decide +kernel
+theorem C17_string_roundtrip : ∀ t ∈ Prof.strTables, t.ok = true :=
+  Lemmas.string_roundtrip
 
 /-- the string tables enumerate exactly the constants compared with the spreadsheet above: same types, same
 values, `String()` = the constant's name -/
 theorem C17_string_tables_cover :
     Prof.strTables.map (fun t => (t.name, t.rows.map fun r => (r.value, r.str))) =
-    Prof.types.map (fun t => (t.name, t.consts.map fun c => (c.value, c.name))) := by
-  decide +kernel
+    Prof.types.map (fun t => (t.name, t.consts.map fun c => (c.value, c.name))) :=
+  Lemmas.string_tables_cover
 
 /-- the invalid value of every type is the invalid value of its base type (all ones, or 0 for the `z` types) -/
 theorem C17_invalid_is_base_invalid :
     ∀ p ∈ Prof.strTables.zip Prof.types,
       p.1.invalid = (if p.2.baseType = 10 ∨ p.2.baseType = 139 ∨ p.2.baseType = 140 ∨ p.2.baseType = 144 then 0
-                     else 2 ^ (8 * btSize p.2.baseType) - 1) := by
+                     else 2 ^ (8 * btSize p.2.baseType) - 1) :=
+  Lemmas.invalid_is_base_invalid
+
+/-! ## the other generated packages: untyped constants, profile types, version -/
+
+/-- **Untyped constants.** The constants of profile/untyped/fieldnum and profile/untyped/mesgnum (read from the
+source: untyped constants do not exist at run time) are, as multisets of (identifier up to case and punctuation,
+value), exactly the spreadsheet's fields and message numbers plus one `Invalid` (255 / 65535) per package — after `f14`. -/
+theorem C17_mesgnum_fieldnum_partial :
+    sortedPairs Untyped.fieldnum = sortedPairs (expectedFieldnum (Xlsx.mesgs.map (Mesg.fix f14))) ∧
+    sortedPairs Untyped.mesgnum = sortedPairs (expectedMesgnum (Xlsx.types.map (TypeRow.fix f14))) ∧
+    nodupNat (Untyped.fieldnum.map (fun p => normIdent p.1)) = true ∧ nodupNat (Untyped.mesgnum.map (fun p => normIdent p.1)) = true :=
+  ⟨Lemmas.fieldnum_ok, Lemmas.mesgnum_ok.1, Lemmas.fieldnum_nodup, Lemmas.mesgnum_ok.2⟩
+
+/-- **Profile types** (profile_gen.go): `ListProfileType()` is the 17 base types in the order of the spreadsheet's
+`fit_base_type`, then `bool`, then the types of the Types sheet in order; `String`/`ProfileTypeFromString` round-trip;
+`BaseType()` maps a base type to itself, `bool` to enum, and every other type to the base type the spreadsheet gives. -/
+theorem C17_profile_types :
+    Prof.profileTypeStrs.ok = true ∧
+    Prof.profileTypeStrs.rows.map (·.value) = List.range Prof.profileTypeStrs.rows.length ∧
+    Prof.profileTypeStrs.rows.map (·.str) =
+      (expectedBaseNames Xlsx.types).map (·.1) ++ [0x1626f6f6c /- "bool" -/] ++ (Xlsx.types.map fun t => (t.fix f14).name) ∧
+    Prof.profileTypeBases =
+      (expectedBaseNames Xlsx.types).map (·.2) ++ [0 /- enum -/] ++ Xlsx.types.map (·.baseType) :=
+  Lemmas.profile_types
+
+/-- **Version.** The compiled `profile.Version` is the version the generator was run with (the one named in
+version_gen.go's own doc comment; the file itself is covered by `C17_bytes`). -/
+theorem C17_version : Prof.profileVersion = Digest.versionArg := by
   decide +kernel
 
 end Fit.C17
